@@ -35,7 +35,7 @@ SIGNS = [("**", "*"), ("**", "*"), ("^", "*"), ("^", " "), ("^", "")]
 
 def shards(tier, seed):
     n = 8 if tier == "quick" else 16
-    per = 700 if tier == "quick" else 7000
+    per = 1500 if tier == "quick" else 10000
     return [{"part": i, "n": per} for i in range(n)]
 
 
